@@ -157,6 +157,24 @@ fn run_case(case: &Case) -> (String, Result<(), Error>) {
     }
 }
 
+/// How the library displays a lone rpc-error with the tag of index `i` and the given severity.
+fn calibrated(i: usize, is_error: bool) -> String {
+    use std::sync::{Mutex, OnceLock};
+    static CACHE: OnceLock<Mutex<std::collections::HashMap<(usize, bool), String>>> = OnceLock::new();
+    let key = (i % crate::e3::ERROR_TAGS.len(), is_error);
+    let cache = CACHE.get_or_init(Mutex::default);
+    if let Some(v) = cache.lock().unwrap().get(&key) {
+        return v.clone();
+    }
+    let case = Case { kind: Kind::Empty, children: rpc_error(i, if is_error { "error" } else { "warning" }, false), errors: vec![(i, is_error)], positive: false, desc: String::new() };
+    let shown = match run_case(&case).1 {
+        Err(Error::RpcError(errs)) if errs.len() == 1 => errs.iter().map(|e| format!("{e}")).next().unwrap_or_default(),
+        other => format!("<calibration failed: {other:?}>"),
+    };
+    _ = cache.lock().unwrap().insert(key, shown.clone());
+    shown
+}
+
 trait Stalled {
     fn clone_stalled(self) -> Self;
 }
@@ -167,7 +185,7 @@ impl Stalled for (String, Result<(), Error>) {
 }
 
 pub fn run(report: &mut Report) {
-    let max_len = if report.tier.thorough() { 4 } else { 3 };
+    let max_len = if report.tier.thorough() { 5 } else { 4 };
     let mut evaluations = 0u64;
     let mut distinct: BTreeSet<String> = BTreeSet::new();
     let mut nontrivial = 0u64;
@@ -203,11 +221,11 @@ pub fn run(report: &mut Report) {
                 }
                 Err(Error::RpcError(errs)) => {
                     outcomes[1] += 1;
-                    let got: Vec<String> = errs.iter().map(|e| format!("{e:?}")).collect();
+                    // each reported error must display like the same rpc-error reported on its own
+                    // (calibrated through the library itself: tag and severity identify the element)
+                    let got: Vec<String> = errs.iter().map(|e| format!("{e}")).collect();
                     let ok = got.len() == case.errors.len()
-                        && got.iter().zip(&case.errors).all(|(g, (i, is_err))| {
-                            g.contains(&format!("\"m{i}\"")) && g.contains(if *is_err { "severity: Error" } else { "severity: Warning" })
-                        })
+                        && got.iter().zip(&case.errors).all(|(g, (i, is_err))| *g == calibrated(*i, *is_err))
                         && errs.len() == got.len();
                     if !ok {
                         report.violation(&format!("C08:reported-errors-differ-from-reply:{kind:?}"), &format!("the reported errors {got:?} are not exactly the reply's rpc-errors {:?} in order ({})", case.errors, case.desc), doc);
